@@ -118,7 +118,7 @@ def structure(h):
     for n in order:
         d = h[n]
         nodes.append((W.canon(W.strip_hugr(W.enc_op(d.op))), new[d.parent.idx] if d.parent is not None else 0,
-                      [new[c.idx] for c in h.children(n)], W.canon(dict(d.metadata))))
+                      [new[c.idx] for c in h.children(n)], W.canon(dict(d.metadata)), _function_bodies(getattr(d.op, "val", None))))
     links = Counter()
     for s, t in h.links():
         links[(new.get(s.node.idx, -1), s.offset, new.get(t.node.idx, -1), t.offset)] += 1
@@ -130,11 +130,26 @@ def structure(h):
     return {"n": len(h), "nodes": nodes, "links": links, "per_port": per_port}
 
 
+def _function_bodies(v, depth=0):
+    """the observable structure of every function-valued constant inside a constant, read from the live body HUGRs (not from the
+    constant's encoded form)"""
+    if v is None or depth > 4:
+        return []
+    body = getattr(v, "body", None)
+    if body is not None and hasattr(body, "links"):
+        st = structure(body)
+        return [[st["n"], [list(x[:4]) for x in st["nodes"]], sorted((list(k), c) for k, c in st["links"].items())]]
+    out = []
+    for x in getattr(v, "vals", None) or []:
+        out.extend(_function_bodies(x, depth + 1))
+    return out
+
+
 def same_structure(a, b):
     if a["n"] != b["n"] or len(a["nodes"]) != len(b["nodes"]):
         return f"{a['n']} vs {b['n']} nodes"
     for k, (x, y) in enumerate(zip(a["nodes"], b["nodes"])):
-        for f, name in enumerate(("operation", "parent", "child order", "metadata")):
+        for f, name in enumerate(("operation", "parent", "child order", "metadata", "bodies of function-valued constants")):
             if x[f] != y[f]:
                 return f"{name} of node {k}: {json.dumps(x[f])[:160]} vs {json.dumps(y[f])[:160]}"
     if a["links"] != b["links"]:
